@@ -100,11 +100,22 @@ def x_hist(ctx, case):
                     super().status(*a, **k)
                     if fault.get("armed") is not None:
                         raise fault.pop("armed")
+
+                def startTestRun(self):
+                    super().startTestRun()
+                    for fn in reentrant.pop((self.name, "start"), []):
+                        fn()
+
+                def stopTestRun(self):
+                    super().stopTestRun()
+                    for fn in reentrant.pop((self.name, "stop"), []):
+                        fn()
             cls = MayFail
             sinks[name] = cls(log, name)
         return sinks[name]
 
     fault = {}
+    reentrant = {}     # (sink name, "start" | "stop") -> callbacks run once from inside that sink's method
     fallback = sink("fallback") if cfg["fallback"] else None
     router = testtools.StreamResultRouter(fallback, do_start_stop_run=cfg["fb_ssr"])
     # model state
@@ -143,6 +154,24 @@ def x_hist(ctx, case):
                 registered.append(name)
                 if in_run:
                     expected[name].append(("startTestRun",))
+        elif kind == "rule_from_inside":
+            # a sink that, from inside its own startTestRun / stopTestRun, registers another sink for start/stop
+            # (a supervisor adding a worker's sink when it notices the run beginning or ending)
+            _, host, when, name, prefix = op
+            n_rules += 1
+
+            def add(name=name, prefix=prefix):
+                router.add_rule(sink(name), "route_code_prefix", route_prefix=prefix, consume_route=False,
+                                do_start_stop_run=True)
+                prefixes[prefix] = (name, False)
+                registered.append(name)
+                # registered while the router is starting: started by that very loop; while it is stopping (the
+                # run is still in progress): started at once and stopped by that very loop
+                # (the start / stop of the loop itself is accounted for by the "start" / "stop" op, which walks
+                # `registered` after the router call returned)
+                if when == "stop":
+                    expected[name].append(("startTestRun",))
+            reentrant.setdefault((host, when), []).append(add)
         elif kind == "bad_rule":
             # add_rule refused by the policy (two-step prefix / missing argument): nothing may stick
             _, name, how, dssr = op
@@ -291,6 +320,20 @@ def run(ctx):
                     ctx.execute("hist", {"cfg": {"fallback": fb, "fb_ssr": fb_ssr}, "ops": ops})
     ctx.note_space("fallback x do_start_stop_run x 18 rule sets x number of rules added mid-run, "
                    "each with 8 direct events, 4 StreamToQueue round trips and a second run", n)
+    n = 0
+    for when in ("start", "stop"):
+        for fb in (True, False):
+            for second_run in (True, False):
+                if not ctx.mine():
+                    continue
+                n += 1
+                ops = [["rule", "host", "prefix", "0", True, True], ["rule_from_inside", "host", when, "late", "1"],
+                       ["start"], ["ev", {"id": "a", "st": "success", "rc": "0/x"}], ["stop"]]
+                if second_run:
+                    ops += [["start"], ["ev", {"id": "b", "st": "fail", "rc": "1"}], ["stop"]]
+                ctx.execute("hist", {"cfg": {"fallback": fb, "fb_ssr": fb}, "ops": ops})
+    ctx.note_space("a sink registering another sink from inside its own startTestRun / stopTestRun: 2 x fallback on/off "
+                   "x one or two runs", n)
     ctx.notes["random_cases"] = True
     segs = ["0", "1", "a", "00", "0a"]
     for i in range(ctx.scale(40000, 2000000)):
